@@ -19,11 +19,17 @@ func c08key(k int) string { return string([]byte{byte(k), 0, 1}) }
 // maps in insertion order, so this covers the iteration orders of Run's `range keys`), with at most one disturbance
 // (one task fails, or Stop is called after the k-th Run), under every schedule within the preemption bound.
 func VerifC08() {
-	// (tasks, keys) shapes: quick {3 tasks x 1 key, 2 tasks x 2 keys}; thorough adds {3 x 2, 4 x 1}
+	// (tasks, keys) shapes: quick {3 tasks x 1 key, 2 x 2, 3 x 2 without disturbances}; thorough {3 x 1, 2 x 2, 3 x 2, 4 x 1}
 	shapes := [4][2]int{{3, 1}, {2, 2}, {3, 2}, {4, 1}}
-	shape := shapes[verifChoose("shape", verifParam("shapes", 2, 4))]
+	si := verifChoose("shape", verifParam("shapes", 3, 4))
+	shape := shapes[si]
 	nTasks, nKeys := shape[0], shape[1]
-	workers := 1 + verifChoose("workers", verifParam("maxWorkers", 2, 3))
+	// quick tier: the 3 x 2 shape is explored without disturbances and with 2 workers only
+	focused := si == 2 && verifParam("focusThreeByTwo", 1, 0) == 1
+	workers := 2
+	if !focused {
+		workers = 1 + verifChoose("workers", verifParam("maxWorkers", 2, 3))
+	}
 	perms := [3]state.Permissions{state.Read, state.Write, state.Allocate | state.Write}
 	nPerm := verifParam("permKinds", 3, 4) // absent, Read, Write (, Allocate|Write)
 	e := New(nTasks, workers, 1000, nil)
@@ -34,7 +40,10 @@ func VerifC08() {
 	var keysOf [c08MaxTasks][c08MaxKeys]state.Permissions
 	var has [c08MaxTasks][c08MaxKeys]bool
 
-	disturb := verifChoose("disturbance", 1+2*nTasks) // 0 none; 1..n: task d-1 fails; n+1..2n: Stop after Run #(d-n)
+	disturb := 0
+	if !focused {
+		disturb = verifChoose("disturbance", 1+2*nTasks)
+	} // 0 none; 1..n: task d-1 fails; n+1..2n: Stop after Run #(d-n)
 	failIdx, stopAfter := -1, -1
 	if disturb >= 1 {
 		if disturb <= nTasks {
@@ -45,14 +54,25 @@ func VerifC08() {
 	}
 	for i := 0; i < nTasks; i++ {
 		ks := state.Keys{}
+		var pk [c08MaxKeys]int
+		present := 0
+		for k := 0; k < nKeys; k++ {
+			if focused && i == 0 {
+				pk[k] = 1 + verifChoose("perm", nPerm-1) // focused shape: the first task declares every key
+			} else {
+				pk[k] = verifChoose("perm", nPerm)
+			}
+			if pk[k] > 0 {
+				present++
+			}
+		}
 		first := 0
-		if nKeys > 1 {
+		if present > 1 {
 			first = verifChoose("firstKey", nKeys) // rotation of the insertion (= iteration) order
 		}
 		for kk := 0; kk < nKeys; kk++ {
 			k := (first + kk) % nKeys
-			c := verifChoose("perm", nPerm)
-			if c > 0 {
+			if c := pk[k]; c > 0 {
 				ks[c08key(k)] = perms[c-1]
 				keysOf[i][k] = perms[c-1]
 				has[i][k] = true
